@@ -215,6 +215,9 @@ func runC05(w *World, r *Report) {
 		r.Check(ok, "C05.checkpoint-fields", "handleInterrupt saves every pending task input", hInt.Pos(), "Inputs[task.nodeKey] = task.input for each next task", "pending inputs are not saved per task")
 	}
 
+	r.Rule("C05.passthrough-pairs-sided", "the stream<->value pairs a pass-through node derives from its neighbour (what graph.compile hands the checkpointer for that node's pending input / output) come from one side of the neighbour (shared with C04.role-uniform, package compose)", 5)
+	ruleRoleUniform(w, r, "C05.passthrough-pairs-sided", "compose")
+
 	// ---- load-errors-kept
 	r.Rule("C05.load-errors-kept", "on the save / load path (package compose, internal/serialization) a success return after an error-yielding call is reached only where that error was tested nil: a checkpoint that cannot be read back is an error of the resume, never 'no checkpoint, start over' (shared with C13.no-dropped-error)", 1)
 	{
@@ -469,29 +472,7 @@ func runC05(w *World, r *Report) {
 		r.Check(okg, "C05.skip-prehandler", "submit: pre-handler skipped only for resumed sub-graph tasks", submit.Pos(), "guarded by preProcessor != nil && !skipPreHandler", "pre-handler guard changed")
 	}
 	// the rerun/sub-graph handler marks exactly the sub-graph tasks
-	{
-		okm := false
-		sgi := hSub.Params[paramIndex(hSub, "subGraphInterrupts")]
-		instrs(hSub, func(in ssa.Instruction) {
-			if mu, ok := in.(*ssa.MapUpdate); ok {
-				if b, ok := constBool(mu.Value); ok && b {
-					if hasGuard(mu.Block(), func(g guard) bool {
-						e, ok := g.cond.(*ssa.Extract)
-						if !ok || !g.pol {
-							return false
-						}
-						lk, ok := e.Tuple.(*ssa.Lookup)
-						return ok && lk.CommaOk && lk.X == ssa.Value(sgi)
-					}) {
-						okm = true
-					} else {
-						r.Fail("C05.skip-prehandler", hSub.Name()+": skip mark outside the sub-graph arm", mu.Pos(), "a node that is not an interrupted sub-graph (e.g. a rerun node, whose pre-handler must rebuild its input from state) is marked to skip its pre-handler")
-					}
-				}
-			}
-		})
-		r.Check(okm, "C05.skip-prehandler", hSub.Name()+": only interrupted sub-graphs skip their pre-handler", hSub.Pos(), "SkipPreHandler[key] = true under membership in subGraphInterrupts", "rerun nodes / other nodes are marked to skip their pre-handler")
-	}
+	skipMarkOnlySubGraphs(w, r, "C05.skip-prehandler")
 
 	// ---- nested-once
 	r.Rule("C05.nested-once", "forwardCheckPoint only from restoreTasks; fresh tasks carry a cleared checkpoint", 2)
@@ -821,4 +802,32 @@ func completedOnce(w *World, r *Report, rule string) {
 	if n < 3 {
 		undecidedf("%s: only %d (batch / computed tasks, handler call) pairs in run (floor 3)", rule, n)
 	}
+}
+
+// skipMarkOnlySubGraphs: in handleInterruptWithSubGraphAndRerunNodes a SkipPreHandler mark is set only under membership
+// of the task's node in subGraphInterrupts (shared by C05 and C11).
+func skipMarkOnlySubGraphs(w *World, r *Report, rule string) {
+	hSub := w.Fn("compose", "runner.handleInterruptWithSubGraphAndRerunNodes")
+
+	okm := false
+	sgi := hSub.Params[paramIndex(hSub, "subGraphInterrupts")]
+	instrs(hSub, func(in ssa.Instruction) {
+		if mu, ok := in.(*ssa.MapUpdate); ok {
+			if b, ok := constBool(mu.Value); ok && b {
+				if hasGuard(mu.Block(), func(g guard) bool {
+					e, ok := g.cond.(*ssa.Extract)
+					if !ok || !g.pol {
+						return false
+					}
+					lk, ok := e.Tuple.(*ssa.Lookup)
+					return ok && lk.CommaOk && lk.X == ssa.Value(sgi)
+				}) {
+					okm = true
+				} else {
+					r.Fail(rule, hSub.Name()+": skip mark outside the sub-graph arm", mu.Pos(), "a node that is not an interrupted sub-graph (e.g. a rerun node, whose pre-handler must rebuild its input from state) is marked to skip its pre-handler")
+				}
+			}
+		}
+	})
+	r.Check(okm, rule, hSub.Name()+": only interrupted sub-graphs skip their pre-handler", hSub.Pos(), "SkipPreHandler[key] = true under membership in subGraphInterrupts", "rerun nodes / other nodes are marked to skip their pre-handler")
 }
